@@ -97,6 +97,9 @@ func genC09(t *rapid.T) CaseC09 {
 		c.Map = genExoticMap(t, 3, c.Prefix)
 	case 3:
 		c.Map, _ = boostTwoIndexed(t)
+	case 5:
+		// a list of exactly 32 members (the default result capacity), 31, 33, 64 ...
+		c.Map, _ = boostWide(t)
 	case 4:
 		// empty member names on the way to a leaf (never as the last key: "a." cannot address the member "" of a)
 		c.Map, _, _ = boostEmptyKey(t)
